@@ -237,6 +237,13 @@ func c14BodyP(e *c14Env, stamp int, l *obsLog) {
 		data := stamped(stamp, 6000, round)
 		r := bufiox.NewDefaultReader(e.reader(data, 4096))
 		p1, err := r.Peek(8)
+		if round == 1 {
+			// look-ahead only: the buffer grows while nothing is consumed, and the reader is released in that state
+			_, perr := r.Peek(5000)
+			r.Release(nil)
+			p1, err = r.Peek(8)
+			l.add("P%d peek-only growth, Release %v", round, perr)
+		}
 		keep := append([]byte{}, p1...)
 		b, err2 := r.Next(5000)
 		l.add("P%d Peek/Next %v %v %s", round, err, err2, expect(b, data[:5000]))
